@@ -25,10 +25,27 @@ from .pool import Pool, HarnessError, HERE, PY
 
 def _c20_specs(seed, n, ref):
     c = corpus()
+    gen.set_hints(c)
     out = []
+    fams = sorted(c['families'])
+    wfns = [['mindsdb_sql/parser/ast/select/identifier.py', 'get_reserved_words', 25],
+            ['mindsdb_sql/planner/query_planner.py', 'get_predictor', 99], ['mindsdb_sql/render/sqlalchemy_render.py', 'get_query', 690]]
     for i in range(n):
         s = seed * 1_000_000 + i
-        if i % 3 == 2:
+        if i % 13 == 5:
+            spec = gen.gen_s2_long(s, c, ref)
+            spec['clients'] = [spec['clients'][0][:60]]
+            spec['faults'] = [f for f in spec['faults'] if f[1] < 60]
+            spec['gcs_at'] = [g for g in spec['gcs_at'] if g[1] < 60]
+        elif i % 13 == 7:
+            spec = gen.gen_family_history(s, c, fams[i % len(fams)])
+        elif i % 13 == 9:
+            # sweep / state-directed shapes: several focus functions, bytecode-level events in one of them, faults inside
+            spec = gen.gen_sweep_base(s, c, ref, fams[(i * 7) % len(fams)])
+            spec['strategy'] = {'kind': 'focus', 'fns': wfns, 'p': 0.3}
+            spec['instr_fn'] = wfns[i % 3]
+            spec['focus_faults'] = [[0, 2 + i % 5, 'abort']]
+        elif i % 3 == 2:
             spec = gen.gen_s2(s, c, ref)
         else:
             spec = gen.gen_s1(s, c, ref, 0.15, 0.1 if i % 10 == 0 else 0.0)
